@@ -11,7 +11,6 @@ package c13
 
 import (
 	"context"
-	"errors"
 	"fmt"
 	"io"
 	"net/http"
@@ -479,5 +478,3 @@ func finishCase(desc caseDesc, prefix string, gp gridPoint, eff, vname string, w
 	}
 	return res
 }
-
-var _ = errors.New
